@@ -595,6 +595,10 @@ nodesLoop:
 							panic(tc.errorf(cas, "multiple nil cases in type switch (first at %s)", positionOfNil))
 						}
 						positionOfNil = ex.Pos()
+						if name != "" && len(cas.Expressions) == 1 {
+							// In a nil case the variable has the type of the switch expression.
+							tc.scopes.Declare(name, ti, ast.NewIdentifier(ex.Pos(), name), nil)
+						}
 						continue
 					}
 					if !t.IsType() {
